@@ -5,6 +5,7 @@
 -/
 import Prov.Generated.Tables
 import Prov.JsonSpec
+import Prov.XmlSpec
 
 namespace Prov.C10
 open Prov JsonSpec
@@ -28,6 +29,27 @@ theorem t6_json_literal_types :
 /-- T6d: the code's key ↔ attribute maps are the `prov:`-prefixed local names (no renamed key) -/
 theorem t6_json_attribute_ids :
     Gen.attributesIdMap = (Gen.provAttributes.map (fun l => ("prov:" ++ l, l))) := by decide
+
+/-- T6e: the record element names of PROV-XML (spec) with their PROV-DM type and asserted subtype are exactly the code's
+    PROV_N_MAP ∪ ADDITIONAL_N_MAP joined with PROV_BASE_CLS (`bundle` included: an entity typed prov:Bundle) -/
+theorem t6_xml_elements :
+    sameSet2 (XmlSpec.elementTable.map (fun e => (e.1, e.2.1)))
+      ((Gen.nMap ++ Gen.additionalNMap).map (fun p =>
+        (p.2, (Gen.baseCls.find? (fun b => b.1 == p.1)).map (·.2) |>.getD "?"))) = true := by decide
+
+theorem t6_xml_subtypes :
+    sameSet2 (XmlSpec.elementTable.filterMap (fun e => e.2.2.map (fun t => (e.1, t))))
+      ((Gen.additionalNMap ++ [("Bundle", "bundle")]).map (fun p => (p.2, p.1))) = true := by decide
+
+/-- T6f: the schema's child sequences are the code's FORMAL_ATTRIBUTES, kind by kind -/
+theorem t6_xml_formal_order :
+    XmlSpec.formalOrder.all (fun f => Gen.kinds.any (fun k => k.1 == f.1 && k.2.2.1 == f.2)) = true ∧
+    Gen.kinds.all (fun k => XmlSpec.formalOrder.any (fun f => k.1 == f.1)) = true := by decide
+
+/-- T6g: the model's own subtype table (used by writer and reader models) is the same table -/
+theorem t6_xml_model_subtypes :
+    sameSet2 (subtypeTable.map (fun s => (s.2.1, s.1))) (XmlSpec.elementTable.filterMap (fun e => e.2.2.map (fun t => (e.1, t)))) = true := by
+  decide
 
 /-- the abstract value a stored value denotes -/
 def absValue : Value → AVal
